@@ -265,8 +265,8 @@ type rawIAPrefix struct {
 }
 
 func (o *rawIAPrefix) Code() dhcpv6.OptionCode { return dhcpv6.OptionIAPrefix }
-func (o *rawIAPrefix) String() string         { return fmt.Sprintf("rawIAPrefix %s/%d", o.ip, o.plen) }
-func (o *rawIAPrefix) FromBytes([]byte) error { return nil }
+func (o *rawIAPrefix) String() string          { return fmt.Sprintf("rawIAPrefix %s/%d", o.ip, o.plen) }
+func (o *rawIAPrefix) FromBytes([]byte) error  { return nil }
 func (o *rawIAPrefix) ToBytes() []byte {
 	b := make([]byte, 9, 25)
 	b[0], b[1], b[2], b[3] = byte(o.pref>>24), byte(o.pref>>16), byte(o.pref>>8), byte(o.pref)
@@ -625,9 +625,10 @@ func runPrefixSim(t *Trace, seed int64, count, shard, shards int) error {
 
 // long-running instances: state that only goes wrong after many operations (counters that wrap at 2^8 / 2^16,
 // structures that change shape after growth).  One plugin instance per scenario:
-//   gaps   client A holds a prefix and asks again without a hint after a neighbour has renewed exactly g times,
-//          for every g of a sweep (1..16 and 250..262; level 2: 1..300; level 3: 65534..65538)
-//   many   several hundred distinct clients on one pool, each asking twice
+//
+//	gaps   client A holds a prefix and asks again without a hint after a neighbour has renewed exactly g times,
+//	       for every g of a sweep (1..16 and 250..262; level 2: 1..300; level 3: 65534..65538)
+//	many   several hundred distinct clients on one pool, each asking twice
 func runPrefixLong(t *Trace, seed int64, level, shard, shards int) error {
 	var sweeps [][]int
 	rng := func(a, b int) []int {
